@@ -451,25 +451,29 @@ def _run(case: Dict[str, Any], sim: Sim, world: World) -> None:
                     _fail(site, "parse_rxns_did_not_return_self", cond_for(i), {})
             except (KeyError, ValueError) as ex:
                 exc = ex
-            # reconcile: lines are processed in order until the first empty reaction
+            # reconcile: lines are processed in order until the first empty reaction; which new id carries
+            # which reaction is the implementation's business - only the multiset of new reactions is checked
             new_ids = [e for e in H.edges.keys() if e not in before]
-            j = 0
+            expected: List[Tuple[str, Dict[str, int], Dict[str, int]]] = []
             stopped = False
             for ln, rule in zip(lines, eff_rules):
                 r, p = _norm(ln["r"]), _norm(ln["p"])
                 if not r and not p:
                     stopped = True
                     break
-                if j >= len(new_ids):
-                    _fail(site, "reaction_lost_or_overwritten", cond_for(i),
-                          {"line": _rxn_str(ln), "new_ids": new_ids})
-                nid = new_ids[j]
-                j += 1
-                if nid in M.rx:
-                    _fail(site, "generated_id_overwrites_existing", "generated id already in use", {"id": nid})
-                M.rx[nid] = (rule or "r", r, p)
-                for s in set(r) | set(p):
-                    M.kept.discard(s)
+                expected.append((rule or "r", r, p))
+            actual = {nid: (H.edges[nid].rule, dict(H.edges[nid].reactants.to_dict()), dict(H.edges[nid].products.to_dict()))
+                      for nid in new_ids}
+            if sorted(map(repr, expected)) != sorted(map(repr, actual.values())):
+                cls = "generated_id_overwrites_existing" if len(new_ids) < len(expected) and any(
+                    (H.edges[b].rule, dict(H.edges[b].reactants.to_dict()), dict(H.edges[b].products.to_dict())) != M.rx[b]
+                    for b in before if b in H.edges and b in M.rx) else "reaction_lost_or_overwritten"
+                _fail(site, cls, "generated id already in use" if cls.startswith("generated") else "",
+                      {"expected_new": [list(x) for x in expected], "new": {k2: list(v) for k2, v in actual.items()}})
+            for nid, val in actual.items():
+                M.rx[nid] = val
+                for sp_ in set(val[1]) | set(val[2]):
+                    M.kept.discard(sp_)
             if stopped:
                 if exc is None:
                     pass  # invariants decide
@@ -556,18 +560,16 @@ def _run(case: Dict[str, Any], sim: Sim, world: World) -> None:
                 _fail("merge", "unexpected_exception", "generated id already in use" if "already exists" in str(ex) else "",
                       {"exc": repr(ex), "prefix": op["prefix"], "dst_ids": sorted(before), "src_ids": [x[0] for x in src_snapshot]})
             new_ids = [e for e in H.edges.keys() if e not in before]
-            if len(new_ids) != len(src_snapshot):
+            actual = {nid: (H.edges[nid].rule, dict(H.edges[nid].reactants.to_dict()), dict(H.edges[nid].products.to_dict()))
+                      for nid in new_ids}
+            if sorted(repr((x[1], x[2], x[3])) for x in src_snapshot) != sorted(map(repr, actual.values())):
                 _fail("merge", "reaction_lost_or_overwritten", cond_for(i),
                       {"expected_new": len(src_snapshot), "new_ids": new_ids, "dst_ids_before": sorted(before)})
-            taken = set(before)
-            for nid, (sid, rule, r, p) in zip(new_ids, src_snapshot):
-                free = sid not in taken
-                taken.add(nid)
-                if not op["prefix"] and free and nid != sid:
-                    _fail("merge", "explicit_id_not_honoured", cond_for(i), {"src_id": sid, "got": nid})
-                M.rx[nid] = (rule, dict(r), dict(p))
-                for s in set(r) | set(p):
-                    M.kept.discard(s)
+            # (whether merge preserves a free source id is not part of the property: not asserted)
+            for nid, val in actual.items():
+                M.rx[nid] = val
+                for s_ in set(val[1]) | set(val[2]):
+                    M.kept.discard(s_)
             if src_snapshot:
                 merged_pairs.add(frozenset((i, j)))
             outcome = "ok:%d" % len(new_ids)
